@@ -17,7 +17,7 @@ func main() {
 		c.SetRule("layer 1: standalone event pools (std and low_memory, capacity 1..8, 2..16 goroutines, size classes 0 B..1 MiB) driven through get/back with an outstanding-set monitor (count taken after get returns / before back is called: a lower bound of the true in-flight number) and porcupine linearizability of each short get/back history against a counting semaphore; layer 2: the same monitor wrapped around the pool of real pipelines (case space of C01 plus capacity 1..3 back-pressure cases) with leak accounting at idle; distinct = configuration class × observed phenomena (waiters parked, capacity reached, size classes); non-trivial = capacity reached or events accepted")
 		c.Assume("pointer identity identifies an event object; the pool wrapper (build tag verif) delegates every call unchanged")
 		poolmon.RunStress(c, "C05")
-		pipemon.RunProperty(c, "C05", pipemon.Plan{"mix": {24, 500}, "tiny": {16, 300}, "dlq": {12, 150}, "hold": {6, 120}, "directed": {6, 120}}, true, nil)
+		pipemon.RunProperty(c, "C05", pipemon.Plan{"mix": {24, 500}, "tiny": {16, 300}, "dlq": {12, 150}, "hold": {6, 120}, "directed": {9, 120}}, true, nil)
 		if c.Counter("pool_waiters_seen") == 0 {
 			c.Fatal("no reader was ever seen waiting on a full pool")
 		}
